@@ -11,30 +11,23 @@
 (*   - eav_free leaves nothing allocated (C06, C13)                                                        *)
 (* Disagreement with the model's own predicted values is only counted (drift).                             *)
 EXTENDS Eav, Json, IOUtils, TLC
-VARIABLES l, st, lastErr
+VARIABLES l, st, lastErr, ref      \* ref = reference messages of the build, logged at reset
 
 TraceLog == ndJsonDeserialize(IOEnv.TRACE)
 N == Len(TraceLog)
 O == DefaultOpts
-vars == <<l, st, lastErr>>
+vars == <<l, st, lastErr, ref>>
 
 MaskSet(n) == {b \in 0..10 : (n \div (2 ^ b)) % 2 = 1}
 Fails(name, cond) == IF cond THEN {} ELSE {name}
 
-\* byte-sequence search (messages are logged as bytes)
-HasWord(s, w) == \E i \in 1..(Len(s) - Len(w) + 1) : \A j \in 1..Len(w) : LowerB(s[i + j - 1]) = LowerB(w[j])
-W_local == <<108, 111, 99, 97, 108>>   W_domain == <<100, 111, 109, 97, 105, 110>>   W_ip == <<105, 112>>
-W_tld == <<116, 108, 100>>   W_rfc == <<114, 102, 99>>   W_email == <<101, 109, 97, 105, 108>>   W_noerr == <<110, 111, 32, 101, 114, 114, 111, 114>>
-MsgOk(err, msg) ==
-  CASE err = 0 -> HasWord(msg, W_noerr)
-    [] err = E_INVALID_RFC -> HasWord(msg, W_rfc)
-    [] err = E_IDN_ERROR -> Len(msg) > 0
-    [] err = E_EMAIL_EMPTY -> HasWord(msg, W_email)
-    [] err \in LpartCodes -> HasWord(msg, W_local)
-    [] err \in DomainCodes -> HasWord(msg, W_domain)
-    [] err \in IpCodes -> HasWord(msg, W_ip)
-    [] err \in TldCodes -> HasWord(msg, W_tld)
-    [] OTHER -> FALSE
+\* messages are logged as bytes; their wording is free: what is required is that "no error" is said exactly
+\* when there is none, that a refused eav_setup is reported with the text a fresh object gives for it (and that
+\* this is not the "no error" text), and that every other rejection has a non-empty text of its own
+MsgOk(err, msg, rf) ==
+  CASE err = 0 -> msg = rf.noerr
+    [] err = E_INVALID_RFC -> msg = rf.badrfc /\ rf.badrfc # rf.noerr /\ Len(msg) > 0
+    [] OTHER -> Len(msg) > 0 /\ msg # rf.noerr
 
 ConvOfEv(ev) == IF "cc" \in DOMAIN ev THEN [code |-> ev.cc, out |-> ev.co]
                 ELSE ConvAscii(IF AtPos(ev.in) \in 1..(Len(ev.in) - 1) THEN DPart(ev.in) ELSE <<>>)
@@ -51,7 +44,7 @@ StepOf(ev, s) ==
     [] ev.e = "errstr" -> EavErrstr(s)
     [] ev.e = "free" -> EavFree("idn2", s)
 
-IsEmailWhy(ev, s) ==
+IsEmailWhy(ev, s, rf) ==
   LET obsres == [rc |-> ev.rc, v4 |-> ev.fl = 1, v6 |-> ev.fl = 2, dom |-> ev.fl = 4, idn |-> ev.idn]
       pol == OutcomeOf(obsres, s.allow)
       p == EmailP(O, s.confirmed, s.tld, ev.in) IN
@@ -59,13 +52,13 @@ IsEmailWhy(ev, s) ==
   Fails("history", <<ev.ret, ev.err, ev.rc, ev.fl>> = ev.fresh) \cup
   Fails("policy", ev.ret = pol.ret /\ ev.err = pol.err) \cup
   Fails("decision", (p.exp = 1 => ev.rc >= 0) /\ (p.exp = 0 => ev.rc < 0) /\ (p.exp \in {0, 1} /\ p.erc # NOPIN => ev.rc = p.erc)) \cup
-  Fails("message", (ev.err = E_IDN_ERROR => ev.msgidn = 1) /\ MsgOk(ev.err, ev.msg)) \cup
+  Fails("message", (ev.err = E_IDN_ERROR => ev.msgidn = 1) /\ MsgOk(ev.err, ev.msg, rf)) \cup
   Fails("idn", ("cc" \in DOMAIN ev /\ ev.cc # 0 /\ s.confirmed = RFC6531 /\ p.exp = 3) => ev.err = E_IDN_ERROR /\ ev.fl = 0 /\ ev.idn = ev.cc)
 
-WhyEv(ev, s, le) ==
-  CASE ev.e = "is_email" -> IsEmailWhy(ev, s)
+WhyEv(ev, s, le, rf) ==
+  CASE ev.e = "is_email" -> IsEmailWhy(ev, s, rf)
     [] ev.e = "setup" -> Fails("setup", CanUse(s) /\ ev.ret = (IF s.rfc \in 0..3 THEN 0 ELSE E_INVALID_RFC))
-    [] ev.e = "errstr" -> Fails("errstr", CanUse(s) /\ ev.null = 0 /\ ev.err = le /\ MsgOk(ev.err, ev.msg))
+    [] ev.e = "errstr" -> Fails("errstr", CanUse(s) /\ ev.null = 0 /\ ev.err = le /\ MsgOk(ev.err, ev.msg, rf))
     [] ev.e = "free" -> Fails("heap", ev.live = 0 /\ ev.badfree = 0)
     [] ev.e \in {"reset", "init", "set_rfc", "set_tld", "set_allow"} -> {}
     [] OTHER -> {"unknown event"}
@@ -76,10 +69,11 @@ NextErr(ev, le) == CASE ev.e = "is_email" -> ev.err
                      [] ev.e \in {"init", "reset"} -> 0
                      [] OTHER -> le
 
-Init == l = 0 /\ st = Raw /\ lastErr = 0
+Init == l = 0 /\ st = Raw /\ lastErr = 0 /\ ref = [noerr |-> <<>>, badrfc |-> <<>>]
 Next == l < N /\ l' = l + 1 /\ st' = StepOf(TraceLog[l + 1], st) /\ lastErr' = NextErr(TraceLog[l + 1], lastErr)
+        /\ ref' = IF TraceLog[l + 1].e = "reset" THEN [noerr |-> TraceLog[l + 1].noerr, badrfc |-> TraceLog[l + 1].badrfc] ELSE ref
 \* evaluated in the state BEFORE event l+1 is consumed
-Ok == l = N \/ WhyEv(TraceLog[l + 1], st, lastErr) = {} \/ PrintT(<<"BAD", l + 1, WhyEv(TraceLog[l + 1], st, lastErr)>>)
+Ok == l = N \/ WhyEv(TraceLog[l + 1], st, lastErr, ref) = {} \/ PrintT(<<"BAD", l + 1, WhyEv(TraceLog[l + 1], st, lastErr, ref)>>)
 \* the model itself never detects a misuse of memory by the library along the recorded history
 ModelOk == NoMisuse(st) /\ HeapOk(st)
 =============================================================================
